@@ -26,3 +26,5 @@ def run(rep):
     mr.rule_sink(rep, "C13.sink", "C13.crlf", want=("crlf",))
     # content lines are the scanner's physical lines: lines end at line feeds only
     lr.rule_scanner(rep, "C13.physline", "C13.scan")
+    # no hidden state: what the property promises for one use must hold for every later use as well
+    ms.rule_stateless(rep, "C13")
